@@ -232,6 +232,11 @@ class BaseClient:
         result = _EventWaitResult()
 
         def cb(event: events.BaseEvent):
+            if lock.is_set():
+                # already released (by the first matching event or by the
+                # timeout) but the waiter has not been resumed yet
+                return
+
             release = False
 
             if check is not None:
